@@ -14,6 +14,7 @@ def run(ctx, audit):
     extra(ctx)
     import gfi_extras
     gfi_extras.cond_mixed_support(ctx, "C05")
+    gfi_extras.real_distribution_keyword_lanes(ctx, "C05")
     return {"rule": RULE}
 
 
